@@ -448,7 +448,11 @@ impl DecoderState {
                     rangecoder.is_eof()? && self.partial_input_buf.position() as usize == 0
                 }
                 ProcessingMode::Finish => {
-                    rangecoder.is_finished_ok()? && self.partial_input_buf.position() as usize == 0
+                    // Without an unpacked size the stream must end with the
+                    // end-of-stream marker, which leaves rep[0] == 0xFFFF_FFFF.
+                    self.rep[0] == 0xFFFF_FFFF
+                        && rangecoder.is_finished_ok()?
+                        && self.partial_input_buf.position() as usize == 0
                 }
             } {
                 break;
